@@ -32,37 +32,80 @@ def _idem(v):
   return v["clause"] == "C22.idempotent" and not c["exc"] and not c["exc2"]
 
 
-def _m_huge_int(v):
-  """int beyond the float range in a float-valued type: float(x) overflows -> alt text str(x) (digits);
-  float(digits) then silently gives inf."""
-  c, s = v["case"], _spec(v)
-  return (_idem(v) and c["t"] in FLOAT_TYPES and s[0] in ("int", "myint") and abs(int(s[1])) >= 2 ** 1024
-          and c["out"]["k"] == "str" and c["out2"]["tok"] in ("#inf", "#-inf"))
+def _int_of(s):
+  if s[0] in ("int", "myint"):
+    return int(s[1])
+  if s[0] == "int10":
+    return 10 ** s[1]
+  return None
 
 
-def _m_alttext(v):
-  """AltText input in a type whose do_convert does not unwrap it (Date, DateTime, ChoiceList, RefList,
-  Attachments): the result is the bare text, which the same type then parses."""
-  c, s = v["case"], _spec(v)
-  return (_idem(v) and c["t"] in ALTTEXT_TYPES and s[0] == "alttext" and c["inp"]["k"] == "alttext"
-          and c["out"]["k"] == "str" and c["out"]["tok"] == "s" + _esc(s[1]) and c["out2"]["k"] != "str")
-
-
-def _m_choicelist_empty(v):
-  """ChoiceList: text that is a JSON empty list ('[]') becomes the empty tuple, which converts to None."""
-  c, s = v["case"], _spec(v)
-  return (_idem(v) and c["t"] == "ChoiceList" and s[0] in ("str", "mystr") and s[1].startswith("[")
-          and c["out"]["tok"] == "L[]" and c["out"]["k"] == "tuple" and c["out2"]["k"] == "none")
+def _float_overflows(i):
+  try:
+    float(i)
+    return False
+  except OverflowError:
+    return True
 
 
 def _esc(s):
   return s.encode("unicode_escape").decode("ascii")
 
 
+def _m_huge_int(v):
+  """int beyond the float range in a float-valued type (Numeric, ManualSortPos, PositionNumber): float(x)
+  overflows -> alt text str(x) (digits); float(digits) then silently gives inf."""
+  c, s = v["case"], _spec(v)
+  i = _int_of(s)
+  return (_idem(v) and c["t"] in FLOAT_TYPES and i is not None and _float_overflows(i)
+          and c["out"]["k"] == "str" and c["out2"]["tok"] in ("#inf", "#-inf"))
+
+
+def _m_alttext(v):
+  """AltText input that the type's do_convert does not unwrap (Date, DateTime, ChoiceList, RefList,
+  Attachments: any text the type parses; every type but Text/Choice/Any/ChoiceList/Date/DateTime:
+  AltText('')): the result is the bare text, which the same type then converts to a typed value."""
+  c, s = v["case"], _spec(v)
+  return (_idem(v) and s[0] == "alttext" and c["inp"]["k"] == "alttext" and c["out"]["k"] == "str"
+          and c["out"]["tok"] == "s" + _esc(s[1]) and c["out2"]["k"] != "str"
+          and (c["t"] in ALTTEXT_TYPES or s[1] == ""))
+
+
+def _m_choicelist_empty(v):
+  """ChoiceList.do_convert returns the empty tuple (text that is a JSON empty list such as '[]', or a truthy
+  iterable that yields nothing), but converts the empty tuple to None."""
+  c, s = v["case"], _spec(v)
+  return (_idem(v) and c["t"] == "ChoiceList" and c["out"]["k"] == "tuple" and c["out"]["tok"] == "L[]"
+          and c["out2"]["k"] == "none"
+          and ((s[0] in ("str", "mystr") and s[1].startswith("[")) or c["inp"]["k"] == "other"))
+
+
+def _only_empty_recordsets(s):
+  return s[0] == "recordset" and s[2] == [] or \
+      (s[0] == "list" and len(s[1]) > 0 and all(e[0] == "recordset" and e[2] == [] for e in s[1]))
+
+
+def _m_reflist_empty(v):
+  """RefList: an empty RecordSet (or a list of empty RecordSets) becomes an empty list, which converts to None."""
+  c, s = v["case"], _spec(v)
+  return (_idem(v) and c["t"] in ("RefList", "Attachments") and _only_empty_recordsets(s)
+          and c["out"]["k"] == "list" and c["out"]["tok"] == "L[]" and c["out2"]["k"] == "none")
+
+
+def _m_object_str(v):
+  """A non-text object that the type does not accept (Decimal, Fraction, ...) falls back to str(value), and
+  that text is one the type parses (Bool: '1'/'0', Date/DateTime: '2020')."""
+  c, s = v["case"], _spec(v)
+  return (_idem(v) and s[0] == "object" and c["inp"]["k"] == "other" and c["out"]["k"] == "str"
+          and c["out2"]["k"] not in ("str", "absent") and c["t"] in ("Bool", "Date", "DateTime"))
+
+
 MATCHERS = {
   "huge_int_alttext_reparsed_as_inf": _m_huge_int,
   "alttext_not_unwrapped": _m_alttext,
-  "choicelist_empty_json_list": _m_choicelist_empty,
+  "choicelist_empty_tuple": _m_choicelist_empty,
+  "reflist_empty_recordset": _m_reflist_empty,
+  "object_str_reparsed": _m_object_str,
 }
 
 
@@ -234,8 +277,10 @@ def _coverage(files):
         path = "converted"
       paths[path] = paths.get(path, 0) + 1
       if len(samples) < 4 and path == "converted" and case["src"] == "hyp" and len(case["spec"]) < 120 \
-          and case["t"] not in [s["t"] for s in samples]:
-        samples.append({"t": case["t"], "value": render(json.loads(case["spec"])), "out": case["out"]["tok"][:60],
+          and case["t"] not in [s["t"] for s in samples] and case["inp"]["k"] not in [s["kind"] for s in samples] \
+          and case["inp"]["k"] != "none":
+        samples.append({"t": case["t"], "kind": case["inp"]["k"], "value": render(json.loads(case["spec"])),
+                        "out": case["out"]["tok"][:60],
                         "out2": case["out2"]["tok"][:60]})
   return {"cells": cells, "distinct": len(distinct), "nontrivial": len(nontrivial), "src": n_src, "paths": paths,
           "samples": samples}
@@ -251,7 +296,7 @@ def run(ctx):
   ctx.log("TLC enumerated %d (type, value) inputs over %d atoms in %.1fs; universe tables agree"
           % (len(inputs), len(py["atoms"]), model["wall"]))
   nshards = 8 if ctx.quick else 16
-  per = 250 if ctx.quick else 1500             # Hypothesis values per shard; each goes through every type
+  per = 150 if ctx.quick else 1000             # Hypothesis values per shard; each goes through every type
   hyp = [{"hyp": ctx.seed * 1000 + j, "n": per} for j in range(nshards)]
   files = fnspec.run_cases(WORKER, hyp + inputs, ctx.workdir, nshards=nshards)
   failures, n, wall = fnspec.judge(SPEC, files, ctx.workdir)
